@@ -1046,6 +1046,172 @@ def mon_c16(ix: Index):  # noqa: C901, PLR0912
     return out
 
 
+# =============================================================================== C09
+def policy_decided(cfgd: dict, ok: int, fail: int, n: int) -> bool:
+    """Reference completion policy (DESIGN C09): all finished, min successes reached, or tolerance exceeded
+    (any failure when no criterion at all is configured)."""
+    if ok + fail >= n:
+        return True
+    min_ok, tol_n, tol_pct = cfgd.get("min_ok"), cfgd.get("tol_n"), cfgd.get("tol_pct")
+    if min_ok is not None and ok >= min_ok:
+        return True
+    if tol_n is not None and fail > tol_n:
+        return True
+    if tol_pct is not None and n > 0 and fail / n * 100 > tol_pct:
+        return True
+    if min_ok is None and tol_n is None and tol_pct is None and fail > 0:
+        return True
+    return False
+
+
+def norm_completion(node) -> dict:
+    cfgd = dict(node.get("cfg") or {})
+    preset = cfgd.get("preset")
+    if preset == "first_successful":
+        cfgd.update(min_ok=1)
+    elif preset == "all_successful":
+        cfgd.update(tol_n=0, tol_pct=0)
+    elif preset is None and not any(k in cfgd for k in ("min_ok", "tol_n", "tol_pct")) and node["k"] == "par":
+        cfgd.update(tol_n=0, tol_pct=0)  # ParallelConfig default = all_successful
+    return cfgd
+
+
+def mon_c09(ix: Index):  # noqa: C901, PLR0912
+    out = []
+    n_checked = 0
+    for path, node in ix.nodes.items():
+        if node["k"] not in ("par", "map"):
+            continue
+        nb = len(node["branches"]) if node["k"] == "par" else len(node["items"])
+        cfgd = norm_completion(node)
+        maxc = cfgd.get("max_conc")
+        oid = ix.path2id.get(path)
+        bids = {}
+        for i in range(nb):
+            b = ix.path2id.get("%s/b%d" % (path, i))
+            if b:
+                bids[b] = i
+        # branch completions in applied order
+        comp = []  # (seq, index, "ok"|"fail")
+        for a in ix.applied:
+            u = a.get("u")
+            if u and u["Id"] in bids and u.get("Action") in ("SUCCEED", "FAIL"):
+                comp.append((a["seq"], bids[u["Id"]], "ok" if u["Action"] == "SUCCEED" else "fail"))
+        # ground truth per branch from the probes
+        truth = {}
+        for e in ix.trace:
+            if e["kind"] == "fn_exit" and e.get("fnkind") == "branch" and e["path"].startswith(path + "/b") and e["path"].count("/") == path.count("/") + 1:
+                i = int(e["path"].rsplit("/b", 1)[1])
+                if e.get("outcome") == "ok":
+                    truth[i] = ("ok", e.get("val"))
+                elif str(e.get("outcome", "")).startswith("raise:") and "Suspend" not in e["outcome"] and e["outcome"] not in ("raise:BackgroundThreadError", "raise:OrphanedChildException"):
+                    truth[i] = ("fail", e["outcome"][6:])
+        # concurrency limit
+        active = 0
+        peak = 0
+        for e in ix.trace:
+            if e.get("fnkind") == "branch" and e.get("path", "").startswith(path + "/b") and e["path"].count("/") == path.count("/") + 1:
+                if e["kind"] == "fn_enter":
+                    active += 1
+                    peak = max(peak, active)
+                elif e["kind"] == "fn_exit":
+                    active -= 1
+            elif e["kind"] in ("inv_start",):
+                active = 0
+        if maxc and peak > maxc:
+            out.append(V("C09", "C09/concurrency-limit-exceeded", "%s ran %d branch bodies at once, max_concurrency %d" % (path, peak, maxc)))
+        first_batch = None
+        for e in ix.trace:
+            if e["kind"] == "batch" and e["path"] == path:
+                n_checked += 1
+                items = e.get("items")
+                if items is None:
+                    out.append(V("C09", "C09/batch-result-unreadable", "%s %s" % (path, e.get("reason")), e["i"]))
+                    continue
+                sig = (tuple(tuple(x) if isinstance(x, list) else x for x in map(tuple, items)), e["reason"])
+                if first_batch is None:
+                    first_batch = sig
+                elif sig != first_batch:
+                    out.append(V("C09", "C09/replayed-batch-result-differs", "%s delivered a different BatchResult on replay" % path, e["i"]))
+                if [it[0] for it in items] != list(range(nb)):
+                    out.append(V("C09", "C09/item-count-or-order-wrong", "%s returned indices %s for %d inputs" % (path, [it[0] for it in items], nb), e["i"]))
+                    continue
+                ok = sum(1 for it in items if it[1] == "SUCCEEDED")
+                fail = sum(1 for it in items if it[1] == "FAILED")
+                started = sum(1 for it in items if it[1] == "STARTED")
+                done_before = {i: k for (sq, i, k) in comp if sq <= e.get("aseq", 10**12)}
+                for idx, st, res, err in items:
+                    if st in ("SUCCEEDED", "FAILED"):
+                        if idx not in done_before:
+                            out.append(V("C09", "C09/item-reported-finished-before-its-record", "%s item %d reported %s, no completion record applied yet" % (path, idx, st), e["i"]))
+                        t = truth.get(idx)
+                        if t is not None:
+                            if st == "SUCCEEDED" and (t[0] != "ok" or (t[1] not in (None, "<big>") and res != "<big>" and t[1] != res)):
+                                out.append(V("C09", "C09/item-does-not-carry-branch-result", "%s item %d reported %s, branch produced %s" % (path, idx, str(res)[:60], str(t)[:80]), e["i"]))
+                            if st == "FAILED" and t[0] != "fail":
+                                out.append(V("C09", "C09/item-reported-failed-but-branch-succeeded", "%s item %d" % (path, idx), e["i"]))
+                            if st == "FAILED" and (err is None or not err[1]):
+                                out.append(V("C09", "C09/failed-item-without-error", "%s item %d" % (path, idx), e["i"]))
+                    elif st == "STARTED" and idx in done_before and first_decided(cfgd, comp, nb) is not None and done_before and \
+                            [sq for (sq, i, k) in comp if i == idx][0] < first_decided(cfgd, comp, nb):
+                        pass  # finished strictly before the deciding completion yet reported STARTED: callback ordering race, not judged
+                reason = e["reason"]
+                min_ok, tol_n, tol_pct = cfgd.get("min_ok"), cfgd.get("tol_n"), cfgd.get("tol_pct")
+                if reason == "ALL_COMPLETED" and started:
+                    key = "C09/reason-all-completed-with-started-items"
+                    if min_ok is not None and tol_n is None and tol_pct is None and fail > 0:
+                        key += "/min-successful-only-config-after-failure"
+                    out.append(V("C09", key, "%s reason ALL_COMPLETED with %d STARTED item(s) (ok=%d fail=%d cfg=%s)" % (path, started, ok, fail, cfgd), e["i"]))
+                if reason == "MIN_SUCCESSFUL_REACHED" and (min_ok is None or ok < min_ok):
+                    out.append(V("C09", "C09/reason-min-successful-without-enough-successes", "%s ok=%d min=%s" % (path, ok, min_ok), e["i"]))
+                if reason == "FAILURE_TOLERANCE_EXCEEDED":
+                    breached = (tol_n is not None and fail > tol_n) or (tol_pct is not None and nb and fail / nb * 100 > tol_pct) or (tol_n is None and tol_pct is None and fail > 0)
+                    if fail == 0 or not breached:
+                        out.append(V("C09", "C09/reason-tolerance-exceeded-without-breach", "%s fail=%d cfg=%s" % (path, fail, cfgd), e["i"]))
+                # timing: the call returned only once the policy was decided (counts at the instant of return)
+                okb = sum(1 for k in done_before.values() if k == "ok")
+                failb = sum(1 for k in done_before.values() if k == "fail")
+                minonly = min_ok is not None and tol_n is None and tol_pct is None
+                if nb > 0 and not policy_decided(cfgd, okb, failb, nb) and not (minonly and failb > 0):
+                    out.append(V("C09", "C09/returned-before-policy-decided", "%s returned with ok=%d fail=%d of %d (cfg %s)" % (path, okb, failb, nb, cfgd), e["i"]))
+        for e in ix.trace:
+            if e["kind"] == "exc" and e.get("path") == path and e.get("opkind") in ("par", "map") and "InvocationError" not in (e.get("mro") or []):
+                first_only = not any(x["kind"] == "exc" and x.get("path") == path and x["i"] < e["i"] for x in ix.trace)
+                if first_only:
+                    out.append(V("C09", "C09/call-raised/%s/%s" % ("zero-items" if nb == 0 else "n>0", e.get("etype") or e["cls"]),
+                                 "%s raised %s(%s): %s" % (path, e["cls"], e.get("etype"), str(e.get("msg"))[:100]), e["i"]))
+        if ix.r.get("stop") == "hang" and any(e["kind"] == "call" and e.get("path") == path for e in ix.trace) and \
+                not any(e["kind"] in ("ret", "exc", "susp", "abort") and e.get("path") == path and e["inv"] == ix.trace[-1]["inv"] for e in ix.trace):
+            h = next((x for x in ix.trace if x["kind"] == "hang"), {})
+            if h.get("verdict") == "hang":
+                out.append(V("C09", "C09/call-never-returned/%s" % ("zero-items" if nb == 0 else "n>0"), "%s never returned: every thread parked" % path, h.get("i")))
+        # the call must not wait for branches that are still running once the policy is decided
+        for e in ix.trace:
+            if e["kind"] == "release" and e.get("forced") and str(e.get("name", "")).startswith("blk:" + path + ":"):
+                okr = sum(1 for (sq, _i, k) in comp if sq <= e.get("aseq", 0) and k == "ok")
+                failr = sum(1 for (sq, _i, k) in comp if sq <= e.get("aseq", 0) and k == "fail")
+                minonly = cfgd.get("min_ok") is not None and cfgd.get("tol_n") is None and cfgd.get("tol_pct") is None
+                if not policy_decided(cfgd, okr, failr, nb) or (minonly and failr > 0):
+                    continue  # the stall was created by the scenario itself (a blocked branch occupies a worker the policy still needs)
+                if any(x["kind"] in ("ret", "susp", "exc") and x.get("path") == path and x["i"] < e["i"] and x["inv"] == e["inv"] for x in ix.trace):
+                    continue
+                out.append(V("C09", "C09/did-not-return-while-branches-still-running", "%s had not returned although the policy was decided; blocked branch %s had to be released" % (path, e["name"]), e["i"]))
+    ix.r.setdefault("stats", {})["c09_batches"] = n_checked
+    return out
+
+
+def first_decided(cfgd, comp, nb):
+    ok = fail = 0
+    for sq, _i, k in comp:
+        if k == "ok":
+            ok += 1
+        else:
+            fail += 1
+        if policy_decided(cfgd, ok, fail, nb):
+            return sq
+    return None
+
+
 MONITORS = {
     "C01": mon_c01,
     "C02": mon_c02,
@@ -1053,6 +1219,7 @@ MONITORS = {
     "C04": mon_c04,
     "C06": mon_c06,
     "C08": mon_c08,
+    "C09": mon_c09,
     "C11": mon_c11,
     "C12": mon_c12,
     "C13": mon_c13,
